@@ -794,6 +794,14 @@ fn main() {
                 println!("arg={:?} quoted={:?} unquoted={:?} faithful={}", s, q, u, ok);
                 bad = !ok;
             }
+            "args_by_construction" => {
+                let text = rp["text"].as_str().unwrap();
+                let vals: Vec<String> = rp["values"].as_array().unwrap().iter().map(|x| x.as_str().unwrap().to_string()).collect();
+                let got = hooks::parse_scriptlet_args(text);
+                let want: Vec<String> = std::iter::once("S0".to_string()).chain(vals.iter().cloned()).collect();
+                println!("+js({}) stands for {:?}; parser gives {:?}", text, vals, got);
+                bad = got.as_ref() != Some(&want);
+            }
             "engine" => {
                 let c = EngineCase::from_json(rp);
                 match run_engine(&c) {
@@ -901,6 +909,56 @@ fn main() {
                     sm.failure(None, &format!("parsed argument {:?} -> {:?} is not a faithful literal", x, q), json!({"kind": "stringify", "arg": x}));
                 }
             }
+        }
+    }
+    // arguments spelled BY CONSTRUCTION from the value they stand for: an unquoted spelling escapes
+    // each comma, a quoted spelling escapes its own quote character; every other byte (other backslash
+    // sequences of a regex included) is literal.  The parser must give the value back, and its literal
+    // must parse back to it.
+    for _ in 0..500 * k {
+        const VA: &[&str] = &["a", "foo", ",", "\\d+", "\\.", "\\w", "/", " ", "'", "\"", "`", "é", "b c", "$1", "{", "}", "(", ")", "\\/", "=", "x"];
+        let nargs = r.range(1, 3);
+        let mut vals: Vec<String> = vec![];
+        let mut spelled: Vec<String> = vec![];
+        for _ in 0..nargs {
+            let mut v = String::new();
+            for _ in 0..r.range(1, 5) {
+                v.push_str(r.pick(VA));
+            }
+            let v = v.trim().to_string();
+            // keep the value unambiguous: no backslash directly before a comma / quote / the end
+            let b = v.as_bytes();
+            let ambiguous = v.is_empty() || b[b.len() - 1] == b'\\' || (0..b.len().saturating_sub(1)).any(|i| b[i] == b'\\' && matches!(b[i + 1], b',' | b'"' | b'\'' | b'`' | b'\\'));
+            if ambiguous {
+                continue;
+            }
+            // (a quoted spelling is only used for values without that quote character: how an escaped
+            // quote inside a quoted argument is read is not fixed by the property; the crate keeps the
+            // backslash, uBO drops it)
+            let sp = match r.below(4) {
+                0 if !v.contains('"') => format!("\"{}\"", v),
+                1 if !v.contains('\'') => format!("'{}'", v),
+                2 if !v.contains('`') => format!("`{}`", v),
+                _ => {
+                    if v.starts_with(|c| c == '"' || c == '\'' || c == '`') { continue }
+                    v.replace(',', "\\,")
+                }
+            };
+            vals.push(v);
+            spelled.push(sp);
+        }
+        if vals.is_empty() {
+            continue;
+        }
+        let text = format!("S0, {}", spelled.join(", "));
+        sm.oracle_evaluations += 1;
+        cs.stat("args_by_construction");
+        if vals.iter().zip(spelled.iter()).any(|(v, sp)| sp.contains("\\,") && v.replace("\\,", "").contains('\\')) { cs.stat("args_by_construction_escaped_comma_and_backslash_sequence") }
+        let got = hooks::parse_scriptlet_args(&text);
+        let want: Vec<String> = std::iter::once("S0".to_string()).chain(vals.iter().cloned()).collect();
+        let lit_ok = got.as_ref().map(|g| g.iter().skip(1).zip(vals.iter()).all(|(x, v)| { let q = hooks::stringify_arg(true, x); js_literal(q.as_bytes()) == Some((v.as_bytes().to_vec(), q.len())) })).unwrap_or(false);
+        if got.as_ref() != Some(&want) || !lit_ok {
+            sm.failure(None, &format!("+js({}) stands for the arguments {:?}; the parser gives {:?} (literal parses back: {})", text, vals, got, lit_ok), json!({"kind": "args_by_construction", "text": text, "values": vals}));
         }
     }
     for _ in 0..250 * k {
